@@ -14,3 +14,8 @@ run cache-rwmutex-readers.diff C08 C09
 run f5fixed-quote-style-queue-growth.diff C07 C14 C15 C16
 run distinct-high-bits.diff C19
 run lru-linked-list-store.diff C08 C09
+run unified-explicit-counts.diff C13 C14
+run rotate-by-reversal.diff C07 C17
+run queue-no-head-reset-and-heap-set-allocates.diff C05 C06 C07 C08
+run cache-replaced-callback-after-evictions.diff C08 C09
+run mapset-intersects-any-order.diff C18 C19
